@@ -40,16 +40,24 @@ static const char* names[] = {
     "task awaiting a task bound to another executor",
     "futex: waiters bound to two executors; wake_all resumes each on its own executor",
     "futex: one waiter; cancel || cancel || wake_all",
+    "two futexes: cancel of F's list head || F.wake_all, then new waiters on G reuse the slots: F.wake_all finds nobody, G.wake_all finds its own",
+    "futex: a waiter arrives || the word changes and wake_all runs: the waiter must not stay suspended",
 };
 int harness_configs() { return sizeof(names) / sizeof(names[0]); }
 const char* harness_config_name(int c) { return names[c]; }
 const char* harness_name() { return "mc_coro"; }
 
 struct World {
-  Futex futex;
+  Futex futex; Futex other;
   std::atomic<int> resumed[4]; std::atomic<int> wrong_exec[4]; FCancel token[4]; bool have_token[4];
   World() { for (int i = 0; i < 4; i++) { resumed[i] = 0; wrong_exec[i] = 0; have_token[i] = false; } bbmc::background(resumed, sizeof resumed); bbmc::background(wrong_exec, sizeof wrong_exec); }
 };
+static CoroutineTask<> waiter_on(Futex& fx, World& w, Executor& ex, int i, uint64_t expect) {
+  co_await fx.wait(expect).on_suspend([&w, i](FCancel&& t) { w.token[i] = std::move(t); w.have_token[i] = true; });
+  w.resumed[i].fetch_add(1, std::memory_order_relaxed);
+  if (!ex.is_running_in()) w.wrong_exec[i].fetch_add(1, std::memory_order_relaxed);
+  co_return;
+}
 static CoroutineTask<> waiter(World& w, Executor& ex, int i, uint64_t expect) {
   co_await w.futex.wait(expect).on_suspend([&w, i](FCancel&& t) { w.token[i] = std::move(t); w.have_token[i] = true; });
   w.resumed[i].fetch_add(1, std::memory_order_relaxed);
@@ -181,6 +189,35 @@ void harness_main(int cfg) {
       other.join_all();
       bbmc::check(r == 2, "wake_all did not resume both waiters");
       check_once(w, 2);
+      break;
+    }
+    case 10: {
+      w.other.value() = 7;
+      auto f0 = inplace.execute(waiter, std::ref(w), std::ref((Executor&)inplace), 0, 7);
+      auto f1 = inplace.execute(waiter, std::ref(w), std::ref((Executor&)inplace), 1, 7);   // list head of F
+      int woke = -1; bool cancelled = false;
+      std::thread a([&] { woke = w.futex.wake_all(); }), b([&] { cancelled = w.token[1](); });
+      a.join(); b.join();
+      bbmc::check(woke + (cancelled ? 1 : 0) == 2 && w.resumed[0].load() == 1 && w.resumed[1].load() == 1, "wake_all + cancel did not resume both waiters exactly once");
+      // two new waits, on the other futex; they reuse the per-wait slots that were just given back
+      auto f2 = inplace.execute(waiter_on, std::ref(w.other), std::ref(w), std::ref((Executor&)inplace), 2, 7);
+      auto f3 = inplace.execute(waiter_on, std::ref(w.other), std::ref(w), std::ref((Executor&)inplace), 3, 7);
+      int stale = w.futex.wake_all();
+      bbmc::check(stale == 0, "wake_all on a futex nobody waits on reported waiters (stale nodes left behind by the wake_all / cancel race)");
+      bbmc::check(w.resumed[2].load() == 0 && w.resumed[3].load() == 0, "waking one futex resumed coroutines that wait on another one");
+      int own = w.other.wake_all();
+      bbmc::check(own == 2, "wake_all did not find the coroutines waiting on its own futex");
+      check_once(w, 4);
+      break;
+    }
+    case 11: {
+      babylon::Future<void> f; int r = -1;
+      std::thread a([&] { f = inplace.execute(waiter, std::ref(w), std::ref((Executor&)inplace), 0, 7); });
+      std::thread b([&] { w.futex.value() = 8; r = w.futex.wake_all(); });
+      a.join(); b.join();
+      // either the waiter saw the new word and did not suspend, or it was queued before wake_all looked and was woken
+      bbmc::check(w.resumed[0].load() == 1, "a wait was left suspended although the word had already changed and wake_all ran afterwards (lost wake-up)");
+      bbmc::check(r == (w.have_token[0] ? 1 : 0), "wake_all's return value does not match the coroutines it resumed");
       break;
     }
     case 9: {
